@@ -221,6 +221,7 @@ type expChooser struct {
 	prev    *gnode
 	prevAct int
 	prevND  bool
+	rot     int
 }
 
 func sameActions(a []gact, b []Action) bool {
@@ -314,7 +315,9 @@ func (c *expChooser) Choose(node string, acts []Action) int {
 			return i
 		}
 	}
-	return -1
+	// nothing new here: move on (rotating through the actions) towards nodes that may still have unexplored actions
+	c.rot++
+	return c.rot % len(n.acts)
 }
 
 func (c *expChooser) Observe(node string, act Action, outcome string, nondet bool) {
